@@ -272,6 +272,9 @@ func specWorkflow(c *Case, obs []CallObs) (string, string) {
 	var inputs []input
 	var branches []branch
 	var addEnds [][2]string
+	endFields := map[string]int{} // mapping targets of END declared through AddEnd / End().AddInput
+	dupEndField := -1
+	staticAfter := -1 // first SetStaticValue made after the successful Compile
 	compiledAt := -1
 	for i := range c.Calls {
 		k := &c.Calls[i]
@@ -298,6 +301,20 @@ func specWorkflow(c *Case, obs []CallObs) (string, string) {
 			}
 			if handle[k.To] {
 				inputs = append(inputs, input{k.To, k.From, k.In, i})
+				if k.To == "end" && k.In != "dep" && compiledAt < 0 {
+					for _, f := range k.Fields {
+						if endFields[f]++; endFields[f] > 1 && dupEndField < 0 {
+							dupEndField = i
+						}
+					}
+				}
+			}
+		case "setstatic":
+			if k.To == "end" {
+				handle["end"] = true
+			}
+			if handle[k.To] && compiledAt >= 0 && staticAfter < 0 {
+				staticAfter = i
 			}
 		case "addbranch":
 			branches = append(branches, branch{k.From, k.Ends, i})
@@ -305,6 +322,11 @@ func specWorkflow(c *Case, obs []CallObs) (string, string) {
 			if compiledAt < 0 && violation == "" {
 				if _, ok := nodes[k.From]; ok || k.From == "start" {
 					addEnds = append(addEnds, [2]string{k.From, "end"})
+					for _, f := range k.Fields {
+						if endFields[f]++; endFields[f] > 1 && dupEndField < 0 {
+							dupEndField = i
+						}
+					}
 				} else {
 					mark(i, "unknown-edge-source")
 				}
@@ -332,7 +354,13 @@ func specWorkflow(c *Case, obs []CallObs) (string, string) {
 						return bad("input-declared-after-compile", in.idx)
 					}
 				}
+				if staticAfter >= 0 {
+					return bad("static-value-set-after-compile", staticAfter)
+				}
 				continue
+			}
+			if dupEndField >= 0 {
+				return bad("duplicate-mapping-target", dupEndField)
 			}
 			var ctrl [][2]string
 			ctrl = append(ctrl, addEnds...)
